@@ -1,15 +1,851 @@
-/- C14 — placeholder while the harness is brought up; replaced by the theorems -/
 import BacVerif.Model.Task
 namespace BacVerif.C14
 open BacVerif.Task
 
-theorem never_early_step (tm : TM) (now : Nat) (e : Entry) (d : Option Nat) (tm' : TM)
-    (h : tm.getNext now = (some e, d, tm')) : e.time ≤ now := by
-  unfold TM.getNext at h
-  split at h
-  · simp at h
-  · split at h
-    · simp at h; obtain ⟨rfl, _⟩ := h; assumption
-    · simp at h
+/-! ## heap lemmas -/
 
+theorem before_refl (a : Entry) : a.before a := by unfold Entry.before; omega
+theorem before_trans {a b c : Entry} (h1 : a.before b) (h2 : b.before c) : a.before c := by
+  unfold Entry.before at *; omega
+theorem before_total (a b : Entry) : a.before b ∨ b.before a := by
+  unfold Entry.before; omega
+
+theorem popMin_none {h : List Entry} : popMin h = none ↔ h = [] := by
+  cases h with
+  | nil => simp [popMin]
+  | cons e r =>
+    simp only [popMin]
+    cases popMin r with
+    | none => simp
+    | some p => obtain ⟨m, r'⟩ := p; simp; split <;> simp
+
+theorem popMin_some {h : List Entry} {m : Entry} {r : List Entry} (hp : popMin h = some (m, r)) :
+    h.Perm (m :: r) ∧ ∀ e ∈ r, m.before e := by
+  induction h generalizing m r with
+  | nil => simp [popMin] at hp
+  | cons e t ih =>
+    simp only [popMin] at hp
+    cases ht : popMin t with
+    | none =>
+      rw [ht] at hp
+      have : t = [] := popMin_none.mp ht
+      simp at hp; obtain ⟨rfl, rfl⟩ := hp
+      subst this; simp
+    | some p =>
+      obtain ⟨m', r'⟩ := p
+      rw [ht] at hp
+      obtain ⟨hperm, hmin⟩ := ih ht
+      simp only at hp
+      split at hp
+      · rename_i hb
+        simp at hp; obtain ⟨rfl, rfl⟩ := hp
+        refine ⟨List.Perm.refl _, ?_⟩
+        intro x hx
+        have hx' : x ∈ m' :: r' := hperm.mem_iff.mp hx
+        rcases List.mem_cons.mp hx' with rfl | hx''
+        · exact hb
+        · exact before_trans hb (hmin x hx'')
+      · rename_i hb
+        simp at hp; obtain ⟨rfl, rfl⟩ := hp
+        refine ⟨?_, ?_⟩
+        · exact (List.Perm.cons e hperm).trans (List.Perm.swap _ _ _)
+        · intro x hx
+          rcases List.mem_cons.mp hx with rfl | hx''
+          · rcases before_total x m' with h | h
+            · exact absurd h hb
+            · exact h
+          · exact hmin x hx''
+
+theorem removeTid_none {tid : Nat} {h : List Entry} : removeTid tid h = none ↔ ∀ e ∈ h, e.tid ≠ tid := by
+  induction h with
+  | nil => simp [removeTid]
+  | cons e t ih =>
+    simp only [removeTid]
+    split
+    · rename_i he; simp [he]
+    · rename_i he
+      cases hr : removeTid tid t with
+      | none => simp [he]; exact ih.mp hr
+      | some p =>
+        simp
+        intro _
+        have : ¬ ∀ e ∈ t, e.tid ≠ tid := fun hh => by rw [ih.mpr hh] at hr; simp at hr
+        simpa using this
+
+theorem removeTid_some {tid : Nat} {h : List Entry} {x : Entry} {r : List Entry}
+    (hp : removeTid tid h = some (x, r)) : x.tid = tid ∧ h.Perm (x :: r) := by
+  induction h generalizing x r with
+  | nil => simp [removeTid] at hp
+  | cons e t ih =>
+    simp only [removeTid] at hp
+    split at hp
+    · rename_i he
+      simp at hp; obtain ⟨rfl, rfl⟩ := hp
+      exact ⟨he, List.Perm.refl _⟩
+    · cases hr : removeTid tid t with
+      | none => rw [hr] at hp; simp at hp
+      | some p =>
+        obtain ⟨x', r'⟩ := p
+        rw [hr] at hp; simp at hp; obtain ⟨rfl, rfl⟩ := hp
+        obtain ⟨h1, h2⟩ := ih hr
+        exact ⟨h1, (List.Perm.cons e h2).trans (List.Perm.swap _ _ _)⟩
+
+/-! ## the schedule invariant -/
+
+/-- strict `(due, seq)` order -/
+def keyLt (d1 s1 d2 s2 : Nat) : Prop := d1 < d2 ∨ (d1 = d2 ∧ s1 < s2)
+
+instance (d1 s1 d2 s2 : Nat) : Decidable (keyLt d1 s1 d2 s2) := by unfold keyLt; exact inferInstance
+
+/-- "the earlier firing `f` wins against `g` whenever `g` was already installed when `f` fired" -/
+def Ordered (f g : Fire) : Prop := g.seq < f.ctr → keyLt f.due f.seq g.due g.seq
+
+/-- Invariant of the schedule (`tm`) together with the log of firings.
+    `part` says that the installation numbers `0 … counter-1` are split three
+    ways — still queued, fired, deleted by suspend_task — without overlap or
+    repetition. -/
+structure SInv (tm : TM) (fired : List Fire) : Prop where
+  part : (tm.heap.map (·.seq) ++ fired.map (·.seq) ++ tm.removed).Perm (List.range tm.counter)
+  tid_nodup : (tm.heap.map (·.tid)).Nodup
+  flag_iff : ∀ t, tm.flag t = true ↔ ∃ e ∈ tm.heap, e.tid = t
+  fired_ctr : ∀ f ∈ fired, f.seq < f.ctr ∧ f.ctr ≤ tm.counter
+  order_heap : ∀ f ∈ fired, ∀ e ∈ tm.heap, e.seq < f.ctr → keyLt f.due f.seq e.time e.seq
+  order : fired.Pairwise Ordered
+  early : ∀ f ∈ fired, f.due ≤ f.now
+
+theorem SInv.init (tm : TM) (h1 : tm.heap = []) (h2 : tm.counter = 0) (h3 : tm.removed = [])
+    (h4 : ∀ t, tm.flag t = false) : SInv tm [] := by
+  constructor <;> simp [h1, h2, h3, h4]
+
+theorem SInv.nodup_all {tm : TM} {fired : List Fire} (h : SInv tm fired) :
+    (tm.heap.map (·.seq) ++ fired.map (·.seq) ++ tm.removed).Nodup :=
+  h.part.nodup_iff.mpr List.nodup_range
+
+theorem SInv.seq_nodup {tm : TM} {fired : List Fire} (h : SInv tm fired) :
+    (tm.heap.map (·.seq)).Nodup := by
+  have := h.nodup_all
+  rw [List.append_assoc] at this
+  exact (List.nodup_append.mp this).1
+
+theorem SInv.heap_seq_lt {tm : TM} {fired : List Fire} (h : SInv tm fired) {e : Entry}
+    (he : e ∈ tm.heap) : e.seq < tm.counter := by
+  have : e.seq ∈ tm.heap.map (·.seq) ++ fired.map (·.seq) ++ tm.removed := by
+    simp only [List.mem_append, List.mem_map]; exact Or.inl (Or.inl ⟨e, he, rfl⟩)
+  exact List.mem_range.mp (h.part.mem_iff.mp this)
+
+theorem SInv.congr {tm tm' : TM} {fired : List Fire} (h : SInv tm fired)
+    (h1 : tm'.heap = tm.heap) (h2 : tm'.counter = tm.counter) (h3 : tm'.flag = tm.flag)
+    (h4 : tm'.removed = tm.removed) : SInv tm' fired := by
+  constructor
+  · rw [h1, h2, h4]; exact h.part
+  · rw [h1]; exact h.tid_nodup
+  · rw [h1, h3]; exact h.flag_iff
+  · rw [h2]; exact h.fired_ctr
+  · rw [h1]; exact h.order_heap
+  · exact h.order
+  · exact h.early
+
+/-- an entry leaves the heap through `suspend_task` -/
+theorem SInv.rm {tm tm' : TM} {fired : List Fire} {x : Entry} (h : SInv tm fired)
+    (hheap : tm.heap.Perm (x :: tm'.heap)) (hflag : tm'.flag = upd tm.flag x.tid false)
+    (hrem : tm'.removed = tm.removed ++ [x.seq]) (hctr : tm'.counter = tm.counter) :
+    SInv tm' fired := by
+  have htid : (x.tid :: tm'.heap.map (·.tid)).Nodup := by
+    have := (hheap.map (·.tid)).nodup_iff.mp h.tid_nodup
+    simpa using this
+  have hsub : ∀ e ∈ tm'.heap, e ∈ tm.heap := fun e he => hheap.mem_iff.mpr (List.mem_cons_of_mem _ he)
+  constructor
+  · rw [hrem, hctr]
+    refine List.Perm.trans ?_ h.part
+    have h1 : (tm.heap.map (·.seq)).Perm (x.seq :: tm'.heap.map (·.seq)) := by
+      simpa using hheap.map (·.seq)
+    refine List.Perm.trans ?_ ((h1.append_right _).append_right _).symm
+    simp only [List.cons_append, ← List.append_assoc]
+    exact List.perm_append_singleton _ _
+  · exact (List.nodup_cons.mp htid).2
+  · intro t
+    rw [hflag]
+    unfold upd
+    have hx : x.tid ∉ tm'.heap.map (·.tid) := (List.nodup_cons.mp htid).1
+    by_cases ht : t = x.tid
+    · subst ht
+      simp only [if_true]
+      constructor
+      · intro hf; cases hf
+      · rintro ⟨e, he, het⟩
+        exact absurd (List.mem_map.mpr ⟨e, he, het⟩) hx
+    · simp only [if_neg ht]
+      rw [h.flag_iff t]
+      constructor
+      · rintro ⟨e, he, het⟩
+        rcases List.mem_cons.mp (hheap.mem_iff.mp he) with rfl | he'
+        · exact absurd het.symm ht
+        · exact ⟨e, he', het⟩
+      · rintro ⟨e, he, het⟩
+        exact ⟨e, hsub e he, het⟩
+  · rw [hctr]; exact h.fired_ctr
+  · intro f hf e he; exact h.order_heap f hf e (hsub e he)
+  · exact h.order
+  · exact h.early
+
+/-- an entry enters the heap through `install_task` -/
+theorem SInv.push {tm tm' : TM} {fired : List Fire} {t tid : Nat} (h : SInv tm fired)
+    (hno : ∀ e ∈ tm.heap, e.tid ≠ tid)
+    (hheap : tm'.heap = ⟨t, tm.counter, tid⟩ :: tm.heap) (hflag : tm'.flag = upd tm.flag tid true)
+    (hrem : tm'.removed = tm.removed) (hctr : tm'.counter = tm.counter + 1) :
+    SInv tm' fired := by
+  constructor
+  · rw [hheap, hrem, hctr, List.range_succ]
+    simp only [List.map_cons, List.cons_append]
+    exact (List.Perm.cons _ h.part).trans (List.perm_append_singleton _ _).symm
+  · rw [hheap]
+    simp only [List.map_cons]
+    refine List.nodup_cons.mpr ⟨?_, h.tid_nodup⟩
+    intro hm
+    obtain ⟨e, he, het⟩ := List.mem_map.mp hm
+    exact hno e he het
+  · intro t'
+    rw [hflag, hheap]
+    unfold upd
+    by_cases ht : t' = tid
+    · subst ht; simp
+    · simp only [if_neg ht, List.mem_cons]
+      rw [h.flag_iff t']
+      constructor
+      · rintro ⟨e, he, het⟩; exact ⟨e, Or.inr he, het⟩
+      · rintro ⟨e, he | he, het⟩
+        · subst he; exact absurd het.symm ht
+        · exact ⟨e, he, het⟩
+  · intro f hf; have := h.fired_ctr f hf; omega
+  · intro f hf e he hlt
+    rw [hheap] at he
+    rcases List.mem_cons.mp he with rfl | he'
+    · have := h.fired_ctr f hf; simp at hlt; omega
+    · exact h.order_heap f hf e he' hlt
+  · exact h.order
+  · exact h.early
+
+/-- an entry leaves the heap through `get_next_task` and is fired -/
+theorem SInv.pop {tm tm' : TM} {fired : List Fire} {e : Entry} {now : Nat} (h : SInv tm fired)
+    (hheap : tm.heap.Perm (e :: tm'.heap)) (hmin : ∀ x ∈ tm'.heap, e.before x)
+    (hflag : tm'.flag = upd tm.flag e.tid false) (hrem : tm'.removed = tm.removed)
+    (hctr : tm'.counter = tm.counter) (hdue : e.time ≤ now) :
+    SInv tm' (fired ++ [⟨e.tid, e.time, e.seq, now, tm.counter⟩]) := by
+  have he : e ∈ tm.heap := hheap.mem_iff.mpr (List.mem_cons_self)
+  have hsub : ∀ x ∈ tm'.heap, x ∈ tm.heap := fun x hx => hheap.mem_iff.mpr (List.mem_cons_of_mem _ hx)
+  have hseq : (e.seq :: tm'.heap.map (·.seq)).Nodup := by
+    have := (hheap.map (·.seq)).nodup_iff.mp h.seq_nodup
+    simpa using this
+  -- everything but `part`, `fired_ctr`, `order_heap`, `order`, `early` is as for `rm`
+  have hrm : SInv { tm' with removed := tm.removed ++ [e.seq] } fired :=
+    h.rm (x := e) hheap hflag rfl hctr
+  constructor
+  · rw [hrem, hctr]
+    refine List.Perm.trans ?_ h.part
+    have h1 : (tm.heap.map (·.seq)).Perm (e.seq :: tm'.heap.map (·.seq)) := by
+      simpa using hheap.map (·.seq)
+    refine List.Perm.trans ?_ ((h1.append_right _).append_right _).symm
+    simp only [List.map_append, List.map_cons, List.map_nil, List.cons_append]
+    have : List.map (fun x => x.seq) tm'.heap ++ (List.map (fun x => x.seq) fired ++ [e.seq]) ++ tm.removed
+        = (List.map (fun x => x.seq) tm'.heap ++ List.map (fun x => x.seq) fired) ++ e.seq :: tm.removed := by
+      simp [List.append_assoc]
+    rw [this]; exact List.perm_middle
+  · exact hrm.tid_nodup
+  · exact hrm.flag_iff
+  · intro f hf
+    rcases List.mem_append.mp hf with hf | hf
+    · rw [hctr]; exact h.fired_ctr f hf
+    · simp at hf; subst hf; simp; rw [hctr]; exact ⟨h.heap_seq_lt he, Nat.le_refl _⟩
+  · intro f hf x hx hlt
+    rcases List.mem_append.mp hf with hf | hf
+    · exact h.order_heap f hf x (hsub x hx) hlt
+    · simp at hf; subst hf
+      simp only
+      have hb := hmin x hx
+      have hne : e.seq ≠ x.seq := by
+        intro heq
+        have := (List.nodup_cons.mp hseq).1
+        exact this (List.mem_map.mpr ⟨x, hx, heq.symm⟩)
+      unfold Entry.before at hb; unfold keyLt; omega
+  · refine List.pairwise_append.mpr ⟨h.order, by simp, ?_⟩
+    intro f hf g hg
+    simp at hg; subst hg
+    intro hlt
+    exact h.order_heap f hf e he hlt
+  · intro f hf
+    rcases List.mem_append.mp hf with hf | hf
+    · exact h.early f hf
+    · simp at hf; subst hf; exact hdue
+/-! ## the TaskManager operations preserve the invariant -/
+
+theorem suspend_inv {tm : TM} {fired : List Fire} (tid : Nat) (h : SInv tm fired) :
+    SInv (tm.suspend tid) fired := by
+  unfold TM.suspend
+  cases hr : removeTid tid tm.heap with
+  | none => exact h.congr rfl rfl rfl rfl
+  | some p =>
+    obtain ⟨x, r⟩ := p
+    obtain ⟨hx, hperm⟩ := removeTid_some hr
+    exact h.rm (x := x) hperm (by simp [hx]) rfl rfl
+
+theorem suspend_no_tid {tm : TM} {fired : List Fire} (tid : Nat) (h : SInv tm fired) :
+    ∀ e ∈ (tm.suspend tid).heap, e.tid ≠ tid := by
+  unfold TM.suspend
+  cases hr : removeTid tid tm.heap with
+  | none => exact removeTid_none.mp hr
+  | some p =>
+    obtain ⟨x, r⟩ := p
+    obtain ⟨hx, hperm⟩ := removeTid_some hr
+    have hn : (x.tid :: r.map (·.tid)).Nodup := by
+      have := (hperm.map (·.tid)).nodup_iff.mp h.tid_nodup
+      simpa using this
+    intro e he het
+    exact (List.nodup_cons.mp hn).1 (List.mem_map.mpr ⟨e, he, by simp [het, hx]⟩)
+
+theorem install_inv {tm : TM} {fired : List Fire} (tid : Nat) (h : SInv tm fired) :
+    SInv (tm.install tid).1 fired := by
+  unfold TM.install
+  cases ht : tm.ttime tid with
+  | none => exact h
+  | some t =>
+    simp only
+    by_cases hf : tm.flag tid = true
+    · simp only [hf, if_true]
+      exact (suspend_inv tid h).push (suspend_no_tid tid h) rfl rfl rfl rfl
+    · simp only [hf]
+      refine h.push ?_ rfl rfl rfl rfl
+      intro e he het
+      exact hf ((h.flag_iff tid).mpr ⟨e, he, het⟩)
+
+theorem installTask_inv {tm : TM} {fired : List Fire} (now tid : Nat) (w d : Option Nat)
+    (h : SInv tm fired) : SInv (tm.installTask now tid w d).1 fired := by
+  unfold TM.installTask
+  simp only
+  split
+  · exact h
+  · exact install_inv tid (h.congr rfl rfl rfl rfl)
+
+theorem installRecurring_inv {tm : TM} {fired : List Fire} (now tid : Nat) (iv off : Option Nat)
+    (h : SInv tm fired) : SInv (tm.installRecurring now tid iv off).1 fired := by
+  unfold TM.installRecurring
+  have h2 : SInv (tm.setRecurring tid iv off) fired := h.congr rfl rfl rfl rfl
+  simp only
+  split
+  · exact h2
+  · split
+    · exact h2
+    · exact install_inv tid (h2.congr rfl rfl rfl rfl)
+
+/-- `get_next_task` when it returns a task -/
+theorem getNext_some {tm tm' : TM} {fired : List Fire} {now : Nat} {e : Entry} {d : Option Nat}
+    (h : SInv tm fired) (hg : tm.getNext now = (some e, d, tm')) :
+    SInv tm' (fired ++ [⟨e.tid, e.time, e.seq, now, tm'.counter⟩]) ∧ e.time ≤ now ∧ e ∈ tm.heap ∧
+      tm.heap.Perm (e :: tm'.heap) ∧ (∀ x ∈ tm'.heap, e.before x) := by
+  unfold TM.getNext at hg
+  cases hp : popMin tm.heap with
+  | none => rw [hp] at hg; simp at hg
+  | some p =>
+    obtain ⟨m, rest⟩ := p
+    rw [hp] at hg
+    simp only at hg
+    obtain ⟨hperm, hmin⟩ := popMin_some hp
+    split at hg
+    · rename_i hdue
+      simp only [Prod.mk.injEq, Option.some.injEq] at hg
+      obtain ⟨rfl, _, rfl⟩ := hg
+      exact ⟨h.pop hperm hmin rfl rfl rfl hdue, hdue, hperm.mem_iff.mpr List.mem_cons_self, hperm, hmin⟩
+    · simp at hg
+
+/-- `get_next_task` when nothing is due -/
+theorem getNext_none {tm tm' : TM} {now : Nat} {d : Option Nat}
+    (hg : tm.getNext now = (none, d, tm')) :
+    tm' = tm ∧ (∀ x ∈ tm.heap, now < x.time) ∧ (d = none ↔ tm.heap = []) := by
+  unfold TM.getNext at hg
+  cases hp : popMin tm.heap with
+  | none =>
+    rw [hp] at hg; simp at hg
+    have := popMin_none.mp hp
+    obtain ⟨rfl, rfl⟩ := hg
+    simp [this]
+  | some p =>
+    obtain ⟨m, rest⟩ := p
+    rw [hp] at hg
+    simp only at hg
+    obtain ⟨hperm, hmin⟩ := popMin_some hp
+    split at hg
+    · simp at hg
+    · rename_i hdue
+      simp only [Prod.mk.injEq, true_and] at hg
+      obtain ⟨rfl, rfl⟩ := hg
+      refine ⟨rfl, ?_, ?_⟩
+      · intro x hx
+        rcases List.mem_cons.mp (hperm.mem_iff.mp hx) with rfl | hx'
+        · omega
+        · have := hmin x hx'; unfold Entry.before at this; omega
+      · constructor
+        · intro hh; cases hh
+        · intro hh; rw [hh] at hp; simp [popMin] at hp
+/-! ## the world: frame lemmas for the deferred side -/
+
+/-- the manager without the wake-up flag -/
+def schedOf (tm : TM) : TM := { tm with trig := false }
+
+/-- everything the schedule theorems look at -/
+def coreOf (w : World) : TM × List Fire × Nat × (Nat → Bool) × (Nat → Body) × Nat :=
+  (schedOf w.tm, w.fired, w.now, w.recurring, w.body, w.spin)
+
+/-- `w'` differs from `w` at most in the deferred side (queue, logs) and the wake-up flag -/
+def Keeps (w w' : World) : Prop := coreOf w' = coreOf w
+
+theorem Keeps.refl (w : World) : Keeps w w := rfl
+theorem Keeps.trans {a b c : World} (h1 : Keeps a b) (h2 : Keeps b c) : Keeps a c :=
+  Eq.trans h2 h1
+
+theorem Keeps.tm {w w' : World} (h : Keeps w w') : schedOf w'.tm = schedOf w.tm := congrArg (·.1) h
+theorem Keeps.heap {w w' : World} (h : Keeps w w') : w'.tm.heap = w.tm.heap := by have := congrArg TM.heap h.tm; exact this
+theorem Keeps.counter {w w' : World} (h : Keeps w w') : w'.tm.counter = w.tm.counter := by have := congrArg TM.counter h.tm; exact this
+theorem Keeps.flag {w w' : World} (h : Keeps w w') : w'.tm.flag = w.tm.flag := by have := congrArg TM.flag h.tm; exact this
+theorem Keeps.removed {w w' : World} (h : Keeps w w') : w'.tm.removed = w.tm.removed := by have := congrArg TM.removed h.tm; exact this
+theorem Keeps.ttime {w w' : World} (h : Keeps w w') : w'.tm.ttime = w.tm.ttime := by have := congrArg TM.ttime h.tm; exact this
+theorem Keeps.ival {w w' : World} (h : Keeps w w') : w'.tm.ival = w.tm.ival := by have := congrArg TM.ival h.tm; exact this
+theorem Keeps.ioff {w w' : World} (h : Keeps w w') : w'.tm.ioff = w.tm.ioff := by have := congrArg TM.ioff h.tm; exact this
+theorem Keeps.jitter {w w' : World} (h : Keeps w w') : w'.tm.jitter = w.tm.jitter := by have := congrArg TM.jitter h.tm; exact this
+theorem Keeps.fired {w w' : World} (h : Keeps w w') : w'.fired = w.fired := congrArg (·.2.1) h
+theorem Keeps.now {w w' : World} (h : Keeps w w') : w'.now = w.now := congrArg (·.2.2.1) h
+theorem Keeps.recurring {w w' : World} (h : Keeps w w') : w'.recurring = w.recurring := congrArg (·.2.2.2.1) h
+theorem Keeps.body {w w' : World} (h : Keeps w w') : w'.body = w.body := congrArg (·.2.2.2.2.1) h
+theorem Keeps.spin {w w' : World} (h : Keeps w w') : w'.spin = w.spin := congrArg (·.2.2.2.2.2) h
+
+theorem Keeps.sinv {w w' : World} (h : Keeps w w') (hs : SInv w.tm w.fired) : SInv w'.tm w'.fired := by
+  rw [h.fired]; exact hs.congr h.heap h.counter h.flag h.removed
+
+theorem emit_keeps (w : World) (e : Ev) : Keeps w (w.emit e) := rfl
+theorem defer_keeps (w : World) (f : Fn) : Keeps w (w.defer f) := rfl
+
+theorem deferAll_keeps (w : World) (fs : List Fn) : Keeps w (w.deferAll fs) := by
+  unfold World.deferAll
+  induction fs generalizing w with
+  | nil => exact Keeps.refl w
+  | cons f r ih => exact (defer_keeps w f).trans (ih (w.defer f))
+
+theorem callFn_keeps (w : World) (f : Fn) : Keeps w (w.callFn f) := by
+  unfold World.callFn
+  simp only
+  split
+  · exact Keeps.trans (b := World.deferAll { w with calls := w.calls ++ [f.id], out := w.out ++ [Ev.call f.id] } f.kids)
+      (Keeps.trans (b := { w with calls := w.calls ++ [f.id], out := w.out ++ [Ev.call f.id] }) rfl (deferAll_keeps _ _)) rfl
+  · exact Keeps.trans (b := { w with calls := w.calls ++ [f.id], out := w.out ++ [Ev.call f.id] }) rfl (deferAll_keeps _ _)
+
+theorem runBatch_keeps (w : World) (b : List Fn) : Keeps w (w.runBatch b) := by
+  unfold World.runBatch
+  induction b generalizing w with
+  | nil => exact Keeps.refl w
+  | cons f r ih => exact (callFn_keeps w f).trans (ih (w.callFn f))
+
+theorem drainFuel_keeps (fuel : Nat) (w : World) : Keeps w (w.drainFuel fuel) := by
+  induction fuel generalizing w with
+  | zero => exact Keeps.refl w
+  | succ n ih =>
+    unfold World.drainFuel
+    split
+    · exact Keeps.refl w
+    · exact Keeps.trans (b := { w with queue := [] }) rfl ((runBatch_keeps _ _).trans (ih _))
+
+theorem drain_keeps (w : World) : Keeps w w.drain := drainFuel_keeps _ w
+
+/-! ## the deferred queue: first in, first out, each exactly once -/
+
+/-- `subs` (ids in submission order) = ids already called ++ ids still queued -/
+def DInv (w : World) : Prop := w.subs = w.calls ++ w.queue.map Fn.id
+
+/-- the same in the middle of a batch: `rem` is the part of `fnlist` still to be called -/
+def DMid (w : World) (rem : List Fn) : Prop := w.subs = w.calls ++ rem.map Fn.id ++ w.queue.map Fn.id
+
+theorem defer_dmid {w : World} {rem : List Fn} (f : Fn) (h : DMid w rem) : DMid (w.defer f) rem := by
+  unfold DMid World.defer at *; simp [h]
+
+theorem deferAll_dmid {w : World} {rem : List Fn} (fs : List Fn) (h : DMid w rem) : DMid (w.deferAll fs) rem := by
+  unfold World.deferAll
+  induction fs generalizing w with
+  | nil => exact h
+  | cons f r ih => exact ih (defer_dmid f h)
+
+theorem callFn_dmid {w : World} {rem : List Fn} (f : Fn) (h : DMid w (f :: rem)) : DMid (w.callFn f) rem := by
+  have h1 : DMid { w with calls := w.calls ++ [f.id], out := w.out ++ [Ev.call f.id] } rem := by
+    unfold DMid at *; simp [h]
+  have h2 := deferAll_dmid f.kids h1
+  unfold World.callFn
+  simp only
+  split
+  · exact h2
+  · exact h2
+
+theorem runBatch_dmid {w : World} (b : List Fn) (h : DMid w b) : DMid (w.runBatch b) [] := by
+  unfold World.runBatch
+  induction b generalizing w with
+  | nil => exact h
+  | cons f r ih => exact ih (callFn_dmid f h)
+
+theorem drainFuel_dinv (fuel : Nat) {w : World} (h : DInv w) : DInv (w.drainFuel fuel) := by
+  induction fuel generalizing w with
+  | zero => exact h
+  | succ n ih =>
+    unfold World.drainFuel
+    split
+    · exact h
+    · rename_i hq
+      apply ih
+      have : DMid { w with queue := [] } w.queue := by unfold DMid; unfold DInv at h; simp [h]
+      have := runBatch_dmid _ this
+      unfold DMid at this; unfold DInv; simpa using this
+
+theorem drain_dinv {w : World} (h : DInv w) : DInv w.drain := drainFuel_dinv _ h
+
+/-! ### the drain loop terminates: the fuel `weights queue` is never exhausted -/
+
+theorem weights_append (a b : List Fn) : weights (a ++ b) = weights a + weights b := by
+  induction a with
+  | nil => simp [weights]
+  | cons f r ih => simp [weights, ih]; omega
+
+theorem defer_queue (w : World) (f : Fn) : (w.defer f).queue = w.queue ++ [f] := rfl
+
+theorem deferAll_queue (w : World) (fs : List Fn) : (w.deferAll fs).queue = w.queue ++ fs := by
+  unfold World.deferAll
+  induction fs generalizing w with
+  | nil => simp
+  | cons f r ih => simp only [List.foldl_cons]; rw [ih, defer_queue]; simp
+
+theorem callFn_queue (w : World) (f : Fn) : (w.callFn f).queue = w.queue ++ f.kids := by
+  unfold World.callFn
+  simp only
+  split <;> simp [deferAll_queue]
+
+theorem runBatch_weight (w : World) (b : List Fn) :
+    weights (w.runBatch b).queue + b.length = weights w.queue + weights b := by
+  unfold World.runBatch
+  induction b generalizing w with
+  | nil => simp [weights]
+  | cons f r ih =>
+    simp only [List.foldl_cons, List.length_cons]
+    have := ih (w.callFn f)
+    rw [callFn_queue, weights_append] at this
+    cases f with
+    | mk i rr kids => simp [weights, Fn.weight, Fn.kids] at *; omega
+
+theorem drainFuel_empty (fuel : Nat) (w : World) (h : weights w.queue ≤ fuel) :
+    (w.drainFuel fuel).queue = [] := by
+  induction fuel generalizing w with
+  | zero =>
+    unfold World.drainFuel
+    cases hq : w.queue with
+    | nil => rfl
+    | cons f r => rw [hq] at h; cases f; simp [weights, Fn.weight] at h
+  | succ n ih =>
+    unfold World.drainFuel
+    split
+    · assumption
+    · rename_i hq
+      apply ih
+      have := runBatch_weight { w with queue := [] } w.queue
+      simp [weights] at this
+      cases hq' : w.queue with
+      | nil => exact absurd hq' hq
+      | cons f r => rw [hq'] at this h; simp at this; omega
+
+/-- after the drain loop nothing is left in the queue -/
+theorem drain_queue_empty (w : World) : w.drain.queue = [] := drainFuel_empty _ w (Nat.le_refl _)
+/-! ## every operation preserves the invariants -/
+
+structure WInv (w : World) : Prop where
+  sched : SInv w.tm w.fired
+  fifo : DInv w
+
+theorem keeps_winv {w w' : World} (hk : Keeps w w') (hs : SInv w.tm w.fired) (hd : DInv w') : WInv w' :=
+  ⟨hk.sinv hs, hd⟩
+
+theorem emit_dinv {w : World} (e : Ev) (h : DInv w) : DInv (w.emit e) := h
+
+theorem emit_winv {w : World} (e : Ev) (h : WInv w) : WInv (w.emit e) := ⟨h.sched, h.fifo⟩
+
+theorem drain_winv {w : World} (h : WInv w) : WInv w.drain :=
+  keeps_winv (drain_keeps w) h.sched (drain_dinv h.fifo)
+
+theorem deferAll_dinv {w : World} (fs : List Fn) (h : DInv w) : DInv (w.deferAll fs) := by
+  have : DMid w [] := by unfold DMid; unfold DInv at h; simpa using h
+  have := deferAll_dmid fs this
+  unfold DMid at this; unfold DInv; simpa using this
+
+/-- `process_task` of a popped entry -/
+theorem process_winv {w : World} {e : Entry}
+    (hs : SInv w.tm (w.fired ++ [⟨e.tid, e.time, e.seq, w.now, w.tm.counter⟩])) (hd : DInv w) :
+    WInv (w.process e).1 := by
+  unfold World.process
+  simp only
+  generalize hw1 : ({ w with fired := w.fired ++ [Fire.mk e.tid e.time e.seq w.now w.tm.counter],
+                             out := w.out ++ [Ev.fire e.tid w.now e.time e.seq] } : World) = w1
+  have hs1 : SInv w1.tm w1.fired := by subst hw1; exact hs
+  have hd1 : DInv w1 := by subst hw1; exact hd
+  have hk := deferAll_keeps w1 (w.body e.tid).defers
+  have hd2 := deferAll_dinv (w.body e.tid).defers hd1
+  have hs2 := hk.sinv hs1
+  generalize w1.deferAll (w.body e.tid).defers = w2 at *
+  split
+  · exact ⟨installRecurring_inv _ _ _ _ hs2, hd2⟩
+  · exact ⟨hs2, hd2⟩
+
+theorem fireNext_winv {w : World} (h : WInv w) : WInv w.fireNext.1 := by
+  unfold World.fireNext
+  rcases hg : w.tm.getNext w.now with ⟨e?, d, tm'⟩
+  cases e? with
+  | none =>
+    simp only
+    obtain ⟨rfl, _, _⟩ := getNext_none hg
+    exact h
+  | some e =>
+    simp only
+    obtain ⟨hs, _⟩ := getNext_some h.sched hg
+    have := process_winv (w := { w with tm := tm' }) (e := e) hs h.fifo
+    split
+    · exact emit_winv _ this
+    · exact this
+
+theorem runOnceLoop_winv (fuel : Nat) {w : World} (h : WInv w) : WInv (w.runOnceLoop fuel).1 := by
+  induction fuel generalizing w with
+  | zero => exact h
+  | succ n ih =>
+    unfold World.runOnceLoop
+    simp only
+    split
+    · exact ih (drain_winv (fireNext_winv h))
+    · exact drain_winv (fireNext_winv h)
+
+theorem setNow_winv {w : World} (t : Nat) (h : WInv w) : WInv { w with now := t } := ⟨h.sched, h.fifo⟩
+
+theorem setTrig_winv {w : World} (b : Bool) (h : WInv w) : WInv { w with tm := { w.tm with trig := b } } :=
+  ⟨h.sched.congr rfl rfl rfl rfl, h.fifo⟩
+
+theorem runLoop_winv (fuel T : Nat) {w : World} (h : WInv w) : WInv (w.runLoop fuel T).1 := by
+  induction fuel generalizing w with
+  | zero => exact h
+  | succ n ih =>
+    unfold World.runLoop
+    simp only
+    have h1 := fireNext_winv h
+    split
+    · exact ih h1
+    · split
+      · exact ih (drain_winv (setTrig_winv false h1))
+      · split
+        · exact drain_winv (setNow_winv _ (setTrig_winv true h1))
+        · exact ih (drain_winv (setNow_winv _ h1))
+
+theorem api_winv {w : World} (r : TM × Option Raised) (hs : SInv r.1 w.fired) (hd : DInv w) : WInv (w.api r) := by
+  unfold World.api
+  simp only
+  split
+  · exact emit_winv _ ⟨hs, hd⟩
+  · exact ⟨hs, hd⟩
+
+theorem step_winv {w : World} (op : Op) (h : WInv w) : WInv (w.step op).1 := by
+  cases op with
+  | installAt tid t => exact api_winv _ (installTask_inv _ _ _ _ h.sched) h.fifo
+  | installAfter tid d => exact api_winv _ (installTask_inv _ _ _ _ h.sched) h.fifo
+  | installBare tid => exact api_winv _ (installTask_inv _ _ _ _ h.sched) h.fifo
+  | installRec tid iv off => exact api_winv _ (installRecurring_inv _ _ _ _ h.sched) h.fifo
+  | suspend tid => exact ⟨suspend_inv tid h.sched, h.fifo⟩
+  | resume tid => exact api_winv _ (install_inv _ h.sched) h.fifo
+  | defer f =>
+    refine keeps_winv (defer_keeps w f) h.sched ?_
+    have := deferAll_dinv [f] h.fifo
+    exact this
+  | tick d => exact setNow_winv _ h
+  | next => exact fireNext_winv h
+  | advOnce d => exact runOnceLoop_winv _ (setNow_winv _ h)
+  | advRun d fuel => exact runLoop_winv _ _ h
+  | jumpRun fuel => exact runLoop_winv _ _ h
+
+theorem run_winv {w : World} (ops : List Op) (h : WInv w) : WInv (w.run ops) := by
+  induction ops generalizing w with
+  | nil => exact h
+  | cons op r ih => exact ih (step_winv op h)
+
+/-- a fresh world: nothing scheduled, nothing fired, nothing deferred; any
+    configuration of task classes, bodies, spin and tick length -/
+def Fresh (w : World) : Prop :=
+  w.tm.heap = [] ∧ w.tm.counter = 0 ∧ w.tm.removed = [] ∧ (∀ t, w.tm.flag t = false) ∧
+  w.fired = [] ∧ w.queue = [] ∧ w.calls = [] ∧ w.subs = []
+
+theorem fresh_winv {w : World} (h : Fresh w) : WInv w := by
+  obtain ⟨h1, h2, h3, h4, h5, h6, h7, h8⟩ := h
+  refine ⟨?_, ?_⟩
+  · rw [h5]; exact SInv.init _ h1 h2 h3 h4
+  · unfold DInv; simp [h6, h7, h8]
+
+/-- the invariants hold after every history -/
+theorem reachable_winv {w : World} (h : Fresh w) (ops : List Op) : WInv (w.run ops) :=
+  run_winv ops (fresh_winv h)
+/-! ## re-installing moves -/
+
+theorem suspend_counter (tm : TM) (tid : Nat) : (tm.suspend tid).counter = tm.counter := by
+  unfold TM.suspend; split <;> rfl
+
+theorem suspend_ttime (tm : TM) (tid : Nat) : (tm.suspend tid).ttime = tm.ttime := by
+  unfold TM.suspend; split <;> rfl
+
+theorem suspend_others {tm : TM} (tid : Nat) :
+    ((tm.suspend tid).heap.filter (fun e => decide (e.tid ≠ tid))).Perm
+      (tm.heap.filter (fun e => decide (e.tid ≠ tid))) := by
+  unfold TM.suspend
+  cases hr : removeTid tid tm.heap with
+  | none => exact List.Perm.refl _
+  | some p =>
+    obtain ⟨x, r⟩ := p
+    obtain ⟨hx, hperm⟩ := removeTid_some hr
+    have := (hperm.filter (fun e => decide (e.tid ≠ tid))).symm
+    simpa [List.filter_cons, hx] using this
+
+/-- `TaskManager.install_task` of a task whose `taskTime` is `t`: afterwards the
+    task has exactly one heap entry, at `t`, with the newest installation
+    number; every other task's entry is untouched. -/
+theorem install_moves {tm : TM} {fired : List Fire} (h : SInv tm fired) (tid t : Nat)
+    (ht : tm.ttime tid = some t) :
+    (tm.install tid).2 = none ∧
+    (tm.install tid).1.heap.filter (fun e => decide (e.tid = tid)) = [⟨t, tm.counter, tid⟩] ∧
+    ((tm.install tid).1.heap.filter (fun e => decide (e.tid ≠ tid))).Perm
+      (tm.heap.filter (fun e => decide (e.tid ≠ tid))) ∧
+    (tm.install tid).1.counter = tm.counter + 1 ∧ (tm.install tid).1.flag tid = true := by
+  unfold TM.install
+  rw [ht]
+  simp only
+  by_cases hf : tm.flag tid = true
+  · simp only [hf, if_true]
+    have hno := suspend_no_tid tid h
+    refine ⟨trivial, ?_, ?_, by rw [suspend_counter], by simp [upd]⟩
+    · rw [suspend_counter]
+      simp only [List.filter_cons, decide_true, if_true]
+      congr 1
+      exact List.filter_eq_nil_iff.mpr (fun e he => by simpa using hno e he)
+    · simp only [List.filter_cons, ne_eq, not_true_eq_false, decide_false]
+      exact suspend_others tid
+  · simp only [hf]
+    have hno : ∀ e ∈ tm.heap, e.tid ≠ tid := fun e he het => hf ((h.flag_iff tid).mpr ⟨e, he, het⟩)
+    refine ⟨trivial, ?_, ?_, rfl, by simp [upd]⟩
+    · simp only [List.filter_cons, decide_true, if_true]
+      congr 1
+      exact List.filter_eq_nil_iff.mpr (fun e he => by simpa using hno e he)
+    · simp
+
+/-- **reinstall_moves** — `task.install_task(when=t)` on any task, pending or
+    not: exactly one entry afterwards, at the new time; nobody else moved; the
+    replaced installation (if there was one) is in `removed` and never fires
+    (`removed_never_fires`). -/
+theorem reinstall_moves {tm : TM} {fired : List Fire} (h : SInv tm fired) (now tid t : Nat) :
+    (tm.installTask now tid (some t) none).2 = none ∧
+    (tm.installTask now tid (some t) none).1.heap.filter (fun e => decide (e.tid = tid))
+      = [⟨t, tm.counter, tid⟩] ∧
+    ((tm.installTask now tid (some t) none).1.heap.filter (fun e => decide (e.tid ≠ tid))).Perm
+      (tm.heap.filter (fun e => decide (e.tid ≠ tid))) := by
+  unfold TM.installTask
+  simp only
+  have h0 : SInv { tm with ttime := upd tm.ttime tid (some t) } fired := h.congr rfl rfl rfl rfl
+  have := install_moves h0 tid t (by simp [upd])
+  exact ⟨this.1, this.2.1, this.2.2.1⟩
+
+/-- the same for `install_task(delta=d)` -/
+theorem reinstall_moves_delta {tm : TM} {fired : List Fire} (h : SInv tm fired) (now tid d : Nat) :
+    (tm.installTask now tid none (some d)).2 = none ∧
+    (tm.installTask now tid none (some d)).1.heap.filter (fun e => decide (e.tid = tid))
+      = [⟨now + d, tm.counter, tid⟩] ∧
+    ((tm.installTask now tid none (some d)).1.heap.filter (fun e => decide (e.tid ≠ tid))).Perm
+      (tm.heap.filter (fun e => decide (e.tid ≠ tid))) := by
+  unfold TM.installTask
+  simp only
+  have h0 : SInv { tm with ttime := upd tm.ttime tid (some (now + d)) } fired := h.congr rfl rfl rfl rfl
+  have := install_moves h0 tid (now + d) (by simp [upd])
+  exact ⟨this.1, this.2.1, this.2.2.1⟩
+
+/-! ## the property clauses, for every history from a fresh world -/
+
+/-- **fire_order** — for any two firings `f` (earlier in the log) and `g`
+    (later): if `g`'s installation already existed when `f` fired (`g.seq <
+    f.ctr`, i.e. both were pending together), then `f` is due strictly earlier,
+    or at the same time and was installed earlier.  Hence tasks fire in
+    non-decreasing order of due time and, among equal times, in installation
+    order.  (The proviso is necessary: an installation made later may lie in
+    the past.) -/
+theorem fire_order {w : World} (hw : Fresh w) (ops : List Op) :
+    (w.run ops).fired.Pairwise (fun f g => g.seq < f.ctr → keyLt f.due f.seq g.due g.seq) :=
+  (reachable_winv hw ops).sched.order
+
+/-- at the moment of a firing, the fired entry is the minimum of the heap -/
+theorem fire_is_min {tm tm' : TM} {now : Nat} {e : Entry} {d : Option Nat}
+    (hg : tm.getNext now = (some e, d, tm')) : ∀ x ∈ tm.heap, e.before x := by
+  unfold TM.getNext at hg
+  cases hp : popMin tm.heap with
+  | none => rw [hp] at hg; simp at hg
+  | some p =>
+    obtain ⟨m, rest⟩ := p
+    rw [hp] at hg
+    obtain ⟨hperm, hmin⟩ := popMin_some hp
+    simp only at hg
+    split at hg
+    · simp only [Prod.mk.injEq, Option.some.injEq] at hg
+      obtain ⟨rfl, _, _⟩ := hg
+      intro x hx
+      rcases List.mem_cons.mp (hperm.mem_iff.mp hx) with rfl | hx'
+      · exact before_refl _
+      · exact hmin x hx'
+    · simp at hg
+
+/-- **never_early** -/
+theorem never_early {w : World} (hw : Fresh w) (ops : List Op) :
+    ∀ f ∈ (w.run ops).fired, f.due ≤ f.now :=
+  (reachable_winv hw ops).sched.early
+
+/-- **once_per_install** (at most once): no installation number occurs twice in the log -/
+theorem once_per_install {w : World} (hw : Fresh w) (ops : List Op) :
+    ((w.run ops).fired.map (·.seq)).Nodup := by
+  have := (reachable_winv hw ops).sched.nodup_all
+  exact (List.nodup_append.mp (List.nodup_append.mp this).1).2.1
+
+/-- the fate of every installation: the numbers `0 … counter-1` are split into
+    "still queued", "fired", "deleted by suspend_task / replaced by a re-install"
+    without overlap -/
+theorem install_fate {w : World} (hw : Fresh w) (ops : List Op) :
+    let v := w.run ops
+    (v.tm.heap.map (·.seq) ++ v.fired.map (·.seq) ++ v.tm.removed).Perm (List.range v.tm.counter) :=
+  (reachable_winv hw ops).sched.part
+
+/-- **suspended_silent** (installation level): what suspend_task deleted — or a
+    re-install replaced — is never fired, before or after -/
+theorem removed_never_fires {w : World} (hw : Fresh w) (ops : List Op) :
+    ∀ s ∈ (w.run ops).tm.removed, s ∉ (w.run ops).fired.map (·.seq) := by
+  intro s hs hf
+  have := (reachable_winv hw ops).sched.nodup_all
+  exact (List.nodup_append.mp this).2.2 s (List.mem_append_right _ hf) s hs rfl
+
+/-- every installation that is neither fired nor deleted is still queued -/
+theorem pending_or_done {w : World} (hw : Fresh w) (ops : List Op) (s : Nat)
+    (hs : s < (w.run ops).tm.counter) (hr : s ∉ (w.run ops).tm.removed)
+    (hf : s ∉ (w.run ops).fired.map (·.seq)) : ∃ e ∈ (w.run ops).tm.heap, e.seq = s := by
+  have := (install_fate hw ops).mem_iff.mpr (List.mem_range.mpr hs)
+  simp only [List.mem_append] at this
+  rcases this with (h | h) | h
+  · obtain ⟨e, he, rfl⟩ := List.mem_map.mp h; exact ⟨e, he, rfl⟩
+  · exact absurd h hf
+  · exact absurd h hr
+
+/-- **reinstall_moves** (invariant): at most one heap entry per task, present iff flagged -/
+theorem one_entry_iff_flagged {w : World} (hw : Fresh w) (ops : List Op) :
+    ((w.run ops).tm.heap.map (·.tid)).Nodup ∧
+    ∀ t, (w.run ops).tm.flag t = true ↔ ∃ e ∈ (w.run ops).tm.heap, e.tid = t :=
+  ⟨(reachable_winv hw ops).sched.tid_nodup, (reachable_winv hw ops).sched.flag_iff⟩
+
+/-- **deferred_fifo_once** (invariant): the ids in submission order are the ids
+    called so far followed by the ids still queued — nothing lost, duplicated or
+    reordered, whatever raised -/
+theorem deferred_fifo {w : World} (hw : Fresh w) (ops : List Op) :
+    (w.run ops).subs = (w.run ops).calls ++ (w.run ops).queue.map Fn.id :=
+  (reachable_winv hw ops).fifo
 end BacVerif.C14
